@@ -188,8 +188,9 @@ func c19RaceConfirm(c *vx.Ctx, dir string, found []c19RaceViol) {
 		for s := 0; s < c.Shard; s++ {
 			b, err := c19WaitRead(filepath.Join(share, fmt.Sprintf("found.S%02d", s)), giveUp)
 			if err != nil {
-				c.HarnessError("race part: " + err.Error())
-				return
+				// a slower worker on a loaded machine: keep our own findings (a key may then be confirmed twice)
+				c.Transient("race part: " + err.Error())
+				continue
 			}
 			var ks []string
 			json.Unmarshal(b, &ks)
@@ -218,7 +219,7 @@ func c19RaceConfirm(c *vx.Ctx, dir string, found []c19RaceViol) {
 		for i := 0; i < 5; i++ {
 			go func() { results <- c19RaceRecheck(dir, v.Seq, v.Key) }()
 		}
-		if c.Confirm(v.Desc, func() string { return <-results }) {
+		if c.ConfirmSampling(v.Desc, func() string { return <-results }) {
 			c.Violate("race", v.Key, v.Desc, c19Replay{Part: "race", Seq: v.Seq})
 		}
 	}
